@@ -49,12 +49,17 @@ Outcome(c, ks) ==
 \* ---- membership predicates with check = True ----------------------------------------
 Preds == {"isR", "isrot", "isrot2", "ishom", "ishom2", "isskew", "isskewa", "iseye", "isunit",
           "isunitvec", "iszerovec", "iszero", "isunittwist", "isunittwist2",
-          "SO2.isvalid", "SE2.isvalid", "SO3.isvalid", "SE3.isvalid", "Twist2.isvalid", "Twist3.isvalid"}
+          "SO2.isvalid", "SE2.isvalid", "SO3.isvalid", "SE3.isvalid", "Twist2.isvalid", "Twist3.isvalid",
+          "UnitQuaternion.isvalid"}
 
 \* argument kinds per predicate and the mathematically defined answer
 PredKinds(p) ==
-  CASE p \in {"isR", "isrot", "isrot2", "SO2.isvalid", "SO3.isvalid"} -> {"valid", "near", "nonorth", "scaled", "reflection"}
-    [] p \in {"ishom", "ishom2", "SE2.isvalid", "SE3.isvalid"} -> {"valid", "near", "nonorth", "scaled", "reflection", "lastrow"}
+  \* "wrong-shape": an array of another shape than the values of the class - a member of ANOTHER group, or an array
+  \* scaled to Euclidean / Frobenius norm 1 - is not a member whatever its entries (isR serves 2x2 and 3x3: not given)
+  CASE p = "isR" -> {"valid", "near", "nonorth", "scaled", "reflection"}
+    [] p \in {"isrot", "isrot2", "SO2.isvalid", "SO3.isvalid"} -> {"valid", "near", "nonorth", "scaled", "reflection", "wrong-shape"}
+    [] p \in {"ishom", "ishom2", "SE2.isvalid", "SE3.isvalid"} -> {"valid", "near", "nonorth", "scaled", "reflection", "lastrow", "wrong-shape"}
+    [] p = "UnitQuaternion.isvalid" -> {"unit", "near-unit", "nonunit", "wrong-shape"}
     [] p = "isskew"   -> {"valid", "near", "notskew"}
     [] p \in {"isskewa", "Twist2.isvalid", "Twist3.isvalid"} -> {"valid", "near", "notskew", "diag", "bottom"}
     [] p = "iseye"    -> {"identity", "near-identity", "not-identity"}
@@ -109,8 +114,7 @@ Predicate(p, k) ==
   /\ call' = [op |-> "predicate", pred |-> p, kind |-> k]
   /\ expect' = PredExpect(p, k)
 
-AllKinds == UNION { Kinds(c) : c \in Cls } \cup {"identity", "near-identity", "not-identity", "unit", "near-unit",
-             "near-zero", "nonzero", "unit-rot", "unit-trans", "nonunit-rot", "nonunit-trans"}
+AllKinds == UNION { PredKinds(p) : p \in Preds }
 
 Next ==
   \/ \E c \in Cls : \E form \in Forms : \E n \in 1..MaxItems : \E ks \in KindSeqs(c, n) : Construct(c, form, ks)
